@@ -196,6 +196,70 @@ def run(c, tier):
     return c.report('C04', tier, t0, summary, extra)
 
 
+def run_miri_big32(c, tier='quick'):
+    """C03, both tiers: a directed history over strings above the 24-bit length limit, where 32-bit
+    targets keep the length in the heap block (a branch no 64-bit run reaches), interpreted by Miri
+    on i686 and x86_64."""
+    c.gen_shadow()
+    stats = {'targets': [], 'wall_s': 0.0}
+    violations = []
+    t0 = time.time()
+    for target in ('i686-unknown-linux-gnu', None):
+        miri_setup(c, target)
+        for mode in ('big32-min', 'big32'):
+            rc, out = miri_run(c, [mode], ['-Zmiri-seed=0'], target=target, timeout=3600)
+            tname = target or 'x86_64-unknown-linux-gnu'
+            stats['targets'].append({'target': tname, 'scenario': mode, 'ok': rc == 0})
+            if rc != 0:
+                detail = miri_error_summary(out)
+                m = re.search(r'VIOLATION-DETAIL (.*)', out)
+                if m:
+                    detail = m.group(1)[:400]
+                os.makedirs(c.REPLAYS, exist_ok=True)
+                path = os.path.join(c.REPLAYS, f'C03-mirisim-{mode}-{tname}.json')
+                json.dump({'property': 'C03', 'engine': 'mirisim', 'mode': mode, 'target': target, 'miri_seed': 0, 'preemption_rate': '0.01',
+                           'miri_error': detail, 'output_tail': out[-3000:]}, open(path, 'w'), indent=1)
+                violations.append({'class': f'miri_{mode}|{tname}', 'count': 1, 'replay': path,
+                                   'violation': {'invariant': f'miri_{mode}', 'op': 'directed history over >16 MiB strings', 'target': tname,
+                                                 'fault': 'none', 'detail': detail}})
+                break
+    # seeded random histories over lengths and capacities straddling the 24-bit limit
+    n = 256 if tier == 'thorough' else 32
+    steps = 40
+    stats['bighist'] = {'target': 'i686-unknown-linux-gnu', 'histories': n, 'steps': steps, 'executed': 0}
+    if not violations:
+        jobs = max(1, min(c.JOBS // 2, n))
+        per = (n + jobs - 1) // jobs
+        chunks = [(k * per, min((k + 1) * per, n)) for k in range(jobs) if k * per < n]
+
+        def one(ch):
+            a, z = ch
+            args = ['bighist', '--seed', str(c.SEED), '--from', str(a), '--to', str(z), '--steps', str(steps)]
+            rc, out = miri_run(c, args, ['-Zmiri-seed=0'], target='i686-unknown-linux-gnu', timeout=3 * 3600)
+            return ch, rc, out
+
+        with cf.ThreadPoolExecutor(max_workers=jobs) as ex:
+            for (a, z), rc, out in ex.map(one, chunks):
+                done = re.findall(r'^BIGHIST (\d+)', out, re.M)
+                stats['bighist']['executed'] += len(done)
+                if rc != 0:
+                    idx = int(done[-1]) if done else a
+                    detail = miri_error_summary(out)
+                    m = re.search(r'VIOLATION-DETAIL (.*)', out)
+                    if m:
+                        detail = m.group(1)[:400]
+                    os.makedirs(c.REPLAYS, exist_ok=True)
+                    path = os.path.join(c.REPLAYS, f'C03-mirisim-bighist-{c.SEED}-{idx}.json')
+                    json.dump({'property': 'C03', 'engine': 'mirisim', 'mode': 'bighist', 'seed': c.SEED, 'index': idx, 'steps': steps,
+                               'target': 'i686-unknown-linux-gnu', 'miri_seed': 0, 'preemption_rate': '0.01', 'miri_error': detail,
+                               'output_tail': out[-3000:]}, open(path, 'w'), indent=1)
+                    violations.append({'class': 'miri_bighist|i686', 'count': 1, 'replay': path,
+                                       'violation': {'invariant': 'miri_bighist', 'op': f'big history {idx}', 'target': 'i686-unknown-linux-gnu',
+                                                     'fault': 'none', 'detail': detail}})
+    stats['wall_s'] = round(time.time() - t0, 1)
+    return stats, violations
+
+
 def replay(c, path, j):
     if j.get('engine') == 'schedsim':
         b = build_sched(c)
@@ -203,7 +267,11 @@ def replay(c, path, j):
     if j.get('engine') == 'mirisim':
         miri_setup(c)
         flags = [f"-Zmiri-seed={j['miri_seed']}", f"-Zmiri-preemption-rate={j['preemption_rate']}"]
-        if j.get('mode') == 'hist':
+        if j.get('mode') in ('big32', 'big32-min'):
+            rc, out = miri_run(c, [j['mode']], flags, target=j.get('target'))
+        elif j.get('mode') == 'bighist':
+            rc, out = miri_run(c, ['bighist', '--seed', str(j['seed']), '--from', str(j['index']), '--to', str(j['index'] + 1), '--steps', str(j['steps'])], flags, target=j.get('target'))
+        elif j.get('mode') == 'hist':
             args = ['hist', '--seed', str(j['seed']), '--from', str(j['index']), '--to', str(j['index'] + 1), '--prop', j['prop']] + j.get('extra_args', [])
             rc, out = miri_run(c, args, flags, target=j.get('target'))
         else:
